@@ -842,6 +842,22 @@ func (h *harness) step(line string) (event, error) {
 		}
 	case "rel":
 		job := f[1]
+		if job == "any" {
+			// release one of the parked jobs, chosen by the scenario's number
+			waiting := []string{}
+			for _, k := range []string{"import", "tag", "convert", "merge"} {
+				if h.g.at(k) {
+					waiting = append(waiting, k)
+				}
+			}
+			n := 0
+			if len(f) > 2 {
+				n, _ = strconv.Atoi(f[2])
+			}
+			if len(waiting) != 0 {
+				job = waiting[n%len(waiting)]
+			}
+		}
 		ev["job"] = job
 		if !h.g.at(job) {
 			ev["noop"] = true
@@ -993,7 +1009,7 @@ func (h *harness) step(line string) (event, error) {
 				fresh = append(fresh, map[string]interface{}{"ord": h.ord(fn), "ids": u642i(st.IndexIDs[fn])})
 			}
 		}
-		switch f[1] {
+		switch ev["job"].(string) {
 		case "import":
 			processed := len(before.ImportJobs) - len(st.ImportJobs)
 			if processed < 0 || processed > len(h.queued) {
@@ -1137,9 +1153,8 @@ func (h *harness) settle() (event, error) {
 			h.complain("C09", "quiescent but converter %s still has %d streams to convert and no converter job runs", cn, len(xs))
 		}
 	}
-	if off := mergeOffset(st); off >= 0 {
-		h.complain("C09", "quiescent but a merge is eligible at offset %d and none runs", off)
-	}
+	// (a merge that is eligible but not started is not a violation: the statement only demands that no
+	// further merges start; the converter completion does not re-check merge eligibility)
 	// C16: at quiescence every stream matching a tag with an attached converter has output
 	for _, t := range st.Tags {
 		for _, cn := range t.Converters {
@@ -1148,6 +1163,9 @@ func (h *harness) settle() (event, error) {
 				cached[id] = true
 			}
 			for _, m := range t.Matches {
+				if uint64(m) >= st.NextStreamID {
+					continue // a mark may name a stream that does not exist (yet)
+				}
 				if !cached[uint64(m)] {
 					h.complain("C16", "quiescent but stream %d matching tag %s has no output of attached converter %s", m, t.Name, cn)
 				}
@@ -1175,56 +1193,106 @@ func (h *harness) settle() (event, error) {
 // generator
 // ---------------------------------------------------------------------------------------------
 
-var tagNames = []string{"tag/a", "tag/b", "service/s", "mark/m", "tag/c"}
+var tagNames = []string{"mark/m", "tag/a", "tag/b", "service/s", "tag/c", "tag/d"}
 var words = []string{"foo", "bar", "GET", "x"}
 
-func genDef(r *lib.RNG, self string) string {
+type genTag struct {
+	data bool // definition looks at payload or byte counts
+	refs bool
+}
+
+// genWorld is the generator's rough picture of the service (it gets no feedback): which tags
+// probably exist, how many streams there are. It only steers the mix towards calls that succeed;
+// wrong guesses just produce error returns, which are legal inputs too.
+type genWorld struct {
+	r       *lib.RNG
+	tags    map[string]*genTag
+	streams int
+	flows   map[int]bool
+}
+
+func (g *genWorld) idx(name string) int {
+	for i, n := range tagNames {
+		if n == name {
+			return i
+		}
+	}
+	return -1
+}
+
+// genDef builds a definition for `self` that references only existing tags that come earlier in
+// tagNames (so the reference graph stays acyclic) unless `wild` asks for a broken reference.
+func (g *genWorld) genDef(self string, wild bool) (string, *genTag) {
+	r := g.r
 	atoms := []string{}
+	gt := &genTag{}
 	n := 1 + r.Intn(2)
+	simple := r.Chance(2, 5) // ports only: such a tag accepts a converter
 	for i := 0; i < n; i++ {
 		var a string
-		switch r.Intn(9) {
+		k := r.Intn(10)
+		if simple {
+			k = r.Intn(2)
+		}
+		switch k {
 		case 0:
 			a = fmt.Sprintf("sport:%d", 2000+r.Intn(4))
 		case 1:
 			a = fmt.Sprintf("cport:%d", 1000+r.Intn(4))
 		case 2:
 			a = fmt.Sprintf("cbytes:%d:", lib.Pick(r, []int{1, 3, 4, 6, 7}))
+			gt.data = true
 		case 3:
 			a = fmt.Sprintf("sbytes:%d:", lib.Pick(r, []int{1, 3, 4}))
+			gt.data = true
 		case 4:
 			a = "cdata:" + lib.Pick(r, words)
+			gt.data = true
 		case 5:
 			a = "sdata:" + lib.Pick(r, words)
+			gt.data = true
 		default:
-			t := lib.Pick(r, tagNames)
-			if t == self && r.Chance(9, 10) {
-				t = lib.Pick(r, tagNames)
+			cands := []string{}
+			for _, t := range tagNames[:max(0, g.idx(self))] {
+				if g.tags[t] != nil {
+					cands = append(cands, t)
+				}
 			}
+			if wild {
+				cands = tagNames
+			}
+			if len(cands) == 0 {
+				a = fmt.Sprintf("sport:%d", 2000+r.Intn(4))
+				break
+			}
+			t := lib.Pick(r, cands)
 			k, v, _ := strings.Cut(t, "/")
 			a = k + ":" + v
+			gt.refs = true
 		}
 		if r.Chance(1, 4) {
 			a = "-" + a
 		}
 		atoms = append(atoms, a)
 	}
-	return strings.Join(atoms, " ")
+	return strings.Join(atoms, " "), gt
 }
 
 func gen(seed uint64, n int, w io.Writer) {
 	r := lib.NewRNG(seed)
+	g := &genWorld{r: r, tags: map[string]*genTag{}, flows: map[int]bool{}}
 	npcap := 0
-	pcapNames := []string{}
 	clock := 0
+	pending := []string{}
 	mkpcap := func() {
 		name := fmt.Sprintf("p%02d.pcap", npcap)
 		npcap++
 		parts := []string{}
 		nf := 1 + r.Intn(3)
-		// sometimes an older capture (earlier timestamps) arrives late: reset of existing streams
+		// sometimes an older capture (earlier timestamps) arrives late: existing streams are reset
 		base := clock
-		if r.Chance(1, 5) && clock > 400 {
+		late := r.Chance(1, 3) && clock >= 400
+		if late {
 			base = clock - 300 - r.Intn(100)
 		} else {
 			clock += 200
@@ -1232,6 +1300,17 @@ func gen(seed uint64, n int, w io.Writer) {
 		ms := base
 		for i := 0; i < nf; i++ {
 			fl := r.Intn(4)
+			if late && len(g.flows) != 0 {
+				// an older capture of flows that are already indexed
+				known := []int{}
+				for f := 0; f < 4; f++ {
+					if g.flows[f] {
+						known = append(known, f)
+					}
+				}
+				fl = lib.Pick(r, known)
+			}
+			g.flows[fl] = true
 			nd := 1 + r.Intn(3)
 			for j := 0; j < nd; j++ {
 				dir := "c"
@@ -1253,68 +1332,127 @@ func gen(seed uint64, n int, w io.Writer) {
 			}
 		}
 		fmt.Fprintf(w, "pcap %s %s\n", name, strings.Join(parts, " "))
-		pcapNames = append(pcapNames, name)
+		pending = append(pending, name)
 	}
-	pending := []string{}
+	existing := func() []string {
+		res := []string{}
+		for _, t := range tagNames {
+			if g.tags[t] != nil {
+				res = append(res, t)
+			}
+		}
+		return res
+	}
+	streamID := func() int {
+		if len(g.flows) == 0 || r.Chance(1, 10) {
+			return r.Intn(6)
+		}
+		return r.Intn(len(g.flows))
+	}
 	for i := 0; i < n; i++ {
-		switch r.Intn(30) {
-		case 0, 1, 2, 3:
+		switch x := r.Intn(40); {
+		case x < 5:
 			mkpcap()
-			pending = append(pending, pcapNames[len(pcapNames)-1])
-			if r.Chance(2, 3) {
+			if r.Chance(3, 4) {
 				k := 1 + r.Intn(len(pending))
 				fmt.Fprintf(w, "import %s\n", strings.Join(pending[:k], " "))
 				pending = pending[k:]
+				g.streams = len(g.flows)
 			}
-		case 4:
-			if len(pending) > 0 {
-				fmt.Fprintf(w, "import %s\n", strings.Join(pending, " "))
-				pending = nil
-			}
-		case 5, 6, 7, 8:
+		case x < 7:
 			fmt.Fprintf(w, "rel import\n")
-		case 9, 10, 11, 12:
+		case x < 10:
 			fmt.Fprintf(w, "rel tag\n")
-		case 13, 14:
+		case x < 11:
 			fmt.Fprintf(w, "rel merge\n")
-		case 15, 16:
+		case x < 12:
 			fmt.Fprintf(w, "rel convert\n")
-		case 17, 18, 19:
-			t := lib.Pick(r, tagNames)
+		case x < 19:
+			fmt.Fprintf(w, "rel any %d\n", r.Intn(12))
+		case x < 24:
+			// add a tag that does not exist yet (sometimes one that does, or with a broken reference)
+			cands := []string{}
+			for _, t := range tagNames {
+				if g.tags[t] == nil {
+					cands = append(cands, t)
+				}
+			}
+			if len(cands) == 0 || r.Chance(1, 10) {
+				cands = tagNames
+			}
+			t := lib.Pick(r, cands)
 			if strings.HasPrefix(t, "mark/") {
 				ids := []string{}
 				for j := 0; j < 1+r.Intn(2); j++ {
-					ids = append(ids, strconv.Itoa(r.Intn(5)))
+					ids = append(ids, strconv.Itoa(streamID()))
 				}
 				fmt.Fprintf(w, "addtag %s red id:%s\n", t, strings.Join(ids, ","))
+				if g.tags[t] == nil {
+					g.tags[t] = &genTag{}
+				}
 			} else {
-				fmt.Fprintf(w, "addtag %s red %s\n", t, genDef(r, t))
+				def, gt := g.genDef(t, r.Chance(1, 12))
+				fmt.Fprintf(w, "addtag %s red %s\n", t, def)
+				if g.tags[t] == nil {
+					g.tags[t] = gt
+				}
 			}
-		case 20:
-			t := lib.Pick(r, tagNames)
+		case x < 27:
+			ex := existing()
+			if len(ex) == 0 {
+				continue
+			}
+			t := lib.Pick(r, ex)
 			if strings.HasPrefix(t, "mark/") {
-				fmt.Fprintf(w, "updq %s id:%d\n", t, r.Intn(5))
+				fmt.Fprintf(w, "updq %s id:%d\n", t, streamID())
 			} else {
-				fmt.Fprintf(w, "updq %s %s\n", t, genDef(r, t))
+				def, gt := g.genDef(t, false)
+				fmt.Fprintf(w, "updq %s %s\n", t, def)
+				g.tags[t] = gt
 			}
-		case 21:
-			fmt.Fprintf(w, "%s mark/m %d\n", lib.Pick(r, []string{"markadd", "markdel"}), r.Intn(5))
-		case 22:
-			fmt.Fprintf(w, "deltag %s\n", lib.Pick(r, tagNames))
-		case 23:
+		case x < 30:
+			fmt.Fprintf(w, "%s mark/m %d\n", lib.Pick(r, []string{"markadd", "markadd", "markdel"}), streamID())
+		case x < 31:
+			ex := existing()
+			if len(ex) != 0 {
+				t := lib.Pick(r, ex)
+				fmt.Fprintf(w, "deltag %s\n", t)
+				delete(g.tags, t) // may fail when referenced; the guess only steers the mix
+			}
+		case x < 32:
 			fmt.Fprintf(w, "updcolor %s %s\n", lib.Pick(r, tagNames), lib.Pick(r, []string{"blue", "green"}))
-		case 24:
-			fmt.Fprintf(w, "updconv %s %s\n", lib.Pick(r, tagNames), lib.Pick(r, []string{"conv1", "-", "conv1"}))
-		case 25, 26:
+		case x < 35:
+			// attach / detach the converter, preferably on a tag that accepts it
+			cands := []string{}
+			for _, t := range existing() {
+				if !g.tags[t].data && !g.tags[t].refs {
+					cands = append(cands, t)
+				}
+			}
+			if len(cands) == 0 {
+				if r.Chance(3, 4) {
+					continue
+				}
+				cands = tagNames
+			} else if r.Chance(1, 10) {
+				cands = tagNames
+			}
+			fmt.Fprintf(w, "updconv %s %s\n", lib.Pick(r, cands), lib.Pick(r, []string{"conv1", "conv1", "conv1", "conv1", "-", "nosuch"}))
+		case x < 37:
 			fmt.Fprintf(w, "vopen %d\n", r.Intn(3))
-		case 27, 28:
+		case x < 39:
 			fmt.Fprintf(w, "vrel %d\n", r.Intn(3))
-		case 29:
-			fmt.Fprintf(w, "updname %s %s\n", lib.Pick(r, tagNames), lib.Pick(r, []string{"tag/z", "tag/a", "service/s"}))
+		default:
+			ex := existing()
+			if len(ex) != 0 {
+				fmt.Fprintf(w, "updname %s %s\n", lib.Pick(r, ex), lib.Pick(r, []string{"tag/z", "tag/a", "service/s", "mark/z"}))
+			}
 		}
 	}
 	for k := 0; k < 3; k++ {
-		fmt.Fprintf(w, "vrel %d\n", k)
+		if r.Chance(2, 3) {
+			fmt.Fprintf(w, "vrel %d\n", k)
+		}
 	}
 	fmt.Fprintf(w, "settle\n")
 }
